@@ -132,6 +132,54 @@ theorem C02_lifecycle (lim : Limiter) (sr tr : List ReadEv) (sw tw : List WriteE
     · rename_i h; simp [he2 (by simpa using h)]
     · rfl
 
+/-- **"…and is all of it if neither end closed early."**  When neither end's script contains a
+fault (no failing read, no cancellation, every write accepted in full and without blocking), then in
+every schedule the bridge never ends by itself: a finished bridge has one direction that reached its
+end-of-stream — and by `C02_bridge_main` that direction delivered everything.  (A bandwidth limit
+cannot be the reason either: `C02_limiter_only_cancel`.) -/
+theorem C02_no_spontaneous_close (lim : Limiter) (sr tr : List ReadEv) (sw tw : List WriteEv) (sched : List Who)
+    (hff : (faultFreeDir sr tw && faultFreeDir tr sw) = true) :
+    holdsNoSpontaneousClose sr tr sw tw
+      (Bridge.run ⟨lim, ⟨sr, tw, {}, none⟩, ⟨tr, sw, {}, none⟩, false, false⟩ sched).lifecycleEnd.obs = true := by
+  have hclean : ∀ (rs : List ReadEv) (ws : List WriteEv), faultFreeDir rs ws = true →
+      DirClean (maxRead rs) ⟨rs, ws, {}, none⟩ := by
+    intro rs ws h
+    simp only [faultFreeDir, Bool.and_eq_true, List.all_eq_true, Bool.not_eq_true', bne_iff_ne, ne_eq,
+      decide_eq_true_eq] at h
+    refine ⟨fun ev hev => ⟨(h.1 ev hev).1, (h.1 ev hev).2⟩, fun w hw => ⟨(h.2 w hw).1.1, (h.2 w hw).2⟩, ?_,
+      fun w hw => (h.2 w hw).1.2⟩
+    intro ev hev
+    unfold maxRead
+    have gen : ∀ (l : List ReadEv) (m : Nat), (∀ e ∈ l, e.data.length ≤ l.foldl (fun m ev => max m ev.data.length) m) ∧
+        m ≤ l.foldl (fun m ev => max m ev.data.length) m := by
+      intro l
+      induction l with
+      | nil => intro m; simp
+      | cons a t ih =>
+        intro m
+        simp only [List.foldl_cons, List.mem_cons, forall_eq_or_imp]
+        have h2 := (ih (max m a.data.length)).2
+        exact ⟨⟨Nat.le_trans (Nat.le_max_right _ _) h2, (ih _).1⟩, Nat.le_trans (Nat.le_max_left _ _) h2⟩
+    exact (gen rs 0).1 ev hev
+  simp only [Bool.and_eq_true] at hff
+  have hinit : JInv (maxRead sr) (maxRead tr) ⟨lim, ⟨sr, tw, {}, none⟩, ⟨tr, sw, {}, none⟩, false, false⟩ :=
+    ⟨hclean sr tw hff.1, hclean tr sw hff.2, by simp, by simp, by simp⟩
+  have h := JInv_run _ _ _ sched hinit
+  generalize Bridge.run ⟨lim, ⟨sr, tw, {}, none⟩, ⟨tr, sw, {}, none⟩, false, false⟩ sched = b at h
+  obtain ⟨_, _, _, hs1, hs2⟩ := h
+  simp only [holdsNoSpontaneousClose, hff.1, hff.2, Bool.and_self, if_true]
+  by_cases hfin : b.finished = true
+  · simp only [Bridge.lifecycleEnd, hfin, if_true, Bridge.obs]
+    simp only [Bridge.finished, Bool.and_eq_true] at hfin
+    obtain ⟨x, hx⟩ := Option.isSome_iff_exists.mp hfin.1
+    rcases hs1 x hx with e | e
+    · subst e; simp [hx, Bridge.finished, hfin.1, hfin.2]
+    · rcases e with e | e
+      · simp [e, Bridge.finished, hfin.1, hfin.2]
+      · simp [e, Bridge.finished, hfin.1, hfin.2]
+  · have hf : b.finished = false := by simpa using hfin
+    simp [Bridge.lifecycleEnd, hf, Bridge.obs]
+
 /-! ### Non-vacuity -/
 
 /-- A script with a timeout, a short write and an error mid-way: the model
